@@ -193,11 +193,19 @@ fn resolve_renamed(
 ) -> Option<String> {
     let name_map = serde_renamed.get(id)?;
 
-    // Find in imports.
+    // Find in imports. The same name can be imported from several crates that rename it
+    // differently; `import_types` is a hash set, so pick the candidate of the crate with the
+    // smallest name instead of whichever comes first in this run.
     import_types
         .iter()
         .filter(|i| i.type_name == id)
-        .find_map(|import_ref| name_map.get(&import_ref.base_crate))
+        .filter_map(|import_ref| {
+            name_map
+                .get(&import_ref.base_crate)
+                .map(|renamed| (&import_ref.base_crate, renamed))
+        })
+        .min_by(|a, b| a.0.cmp(b.0))
+        .map(|(_, renamed)| renamed)
         // Fallback to looking up in our current namespace.
         .or_else(|| name_map.get(crate_name))
         .map(ToOwned::to_owned)
